@@ -61,7 +61,67 @@ def none_tests_rule(repo: Repo, prop: str, rule_id: str, module_prefixes: Tuple[
                         par,
                         key=f"{p}:truthy#{k}",
                     )
+    _optional_fields(repo, r, module_prefixes)
     return r
+
+
+def _truth_tested(n: ast.AST) -> bool:
+    """is the expression node n used for its truth value?"""
+    par = parent(n)
+    if isinstance(par, (ast.If, ast.While, ast.IfExp)) and par.test is n:
+        return True
+    if isinstance(par, ast.UnaryOp) and isinstance(par.op, ast.Not):
+        return True
+    if isinstance(par, ast.BoolOp) and n in par.values:
+        return par.values[-1] is not n
+    if isinstance(par, ast.comprehension) and n in par.ifs:
+        return True
+    return False
+
+
+def _optional_fields(repo: Repo, r: RuleRun, module_prefixes) -> None:
+    """the same for the Optional numeric FIELDS of a class (a dataclass of chop parameters): `self.start_size` tested for truth, or a
+    list of such fields filtered / counted by truth ([p for p in params if p], filter(None, params), any(params))"""
+    for cls in sorted(repo.classes.values(), key=lambda c: c.qualname):
+        short = cls.module.name[len("classy_blocks.") :] if cls.module.name.startswith("classy_blocks.") else cls.module.name
+        if not any(short.startswith(p) for p in module_prefixes):
+            continue
+        fields = {name for name, ann in cls.class_annotations.items() if _numeric_optional(ast.arg(arg=name, annotation=ann))}
+        if not fields:
+            continue
+        for fn in cls.methods.values():
+            me = fn.params[0] if fn.params else "self"
+            is_field = lambda e: isinstance(e, ast.Attribute) and isinstance(e.value, ast.Name) and e.value.id == me and e.attr in fields  # noqa: E731
+            k = 0
+            # lists made of optional fields
+            lists = {}
+            for st in ast.walk(fn.node):
+                if isinstance(st, ast.Assign) and len(st.targets) == 1 and isinstance(st.targets[0], ast.Name) and isinstance(st.value, (ast.List, ast.Tuple)) and st.value.elts and all(is_field(e) for e in st.value.elts):
+                    lists[st.targets[0].id] = st
+            for n in ast.walk(fn.node):
+                if is_field(n) and isinstance(n.ctx, ast.Load) and _truth_tested(n):
+                    k += 1
+                    r.bad(fn, f"{fn.qualname} decides whether the numeric field '{n.attr}' was given by its truth value ('{ast.unparse(parent(n))[:60]}'): an explicit {n.attr}=0 counts as 'not given' - it is never validated, a default takes its place", parent(n), key=f"{n.attr}:truthy#{k}")
+                elif is_field(n) and isinstance(n.ctx, ast.Load):
+                    par = parent(n)
+                    if isinstance(par, ast.Compare) and par.left is n and isinstance(par.ops[0], (ast.Is, ast.IsNot)):
+                        k += 1
+                        r.ok(fn, f"'{ast.unparse(par)}'", key=f"{n.attr}:is-none#{k}")
+                # element-wise truth over a list of optional fields
+                if isinstance(n, (ast.ListComp, ast.GeneratorExp, ast.SetComp)):
+                    for g in n.generators:
+                        if isinstance(g.iter, ast.Name) and g.iter.id in lists and isinstance(g.target, ast.Name):
+                            for cond in g.ifs:
+                                for x in ast.walk(cond):
+                                    if isinstance(x, ast.Name) and x.id == g.target.id and (x is cond or _truth_tested(x)):
+                                        k += 1
+                                        r.bad(fn, f"{fn.qualname} counts the given parameters by truth value ('{ast.unparse(n)[:70]}' over {sorted(e.attr for e in lists[g.iter.id].value.elts)}): a parameter of exactly 0 counts as 'not given', a default is filled in for it and the zero is never validated - Chop(count=10, start_size=0) is answered instead of refused", n, key=f"list:truthy#{k}")
+                if isinstance(n, ast.Call) and isinstance(n.func, ast.Name) and n.func.id in ("any", "all", "filter") and n.args and isinstance(n.args[-1], ast.Name) and n.args[-1].id in lists and (n.func.id != "filter" or (isinstance(n.args[0], ast.Constant) and n.args[0].value is None) or (isinstance(n.args[0], ast.Name) and n.args[0].id == "bool")):
+                    k += 1
+                    r.bad(fn, f"{fn.qualname} tests the optional numeric parameters {sorted(e.attr for e in lists[n.args[-1].id].value.elts)} by truth value ('{ast.unparse(n)[:60]}'): a parameter of exactly 0 counts as 'not given'", n, key=f"list:truthy#{k}")
+                if isinstance(n, ast.Call) and isinstance(n.func, ast.Attribute) and n.func.attr == "count" and isinstance(n.func.value, ast.Name) and n.func.value.id in lists and n.args and isinstance(n.args[0], ast.Constant) and n.args[0].value is None:
+                    k += 1
+                    r.ok(fn, f"'{ast.unparse(n)}' counts the parameters that are None", key=f"list:count-none#{k}")
 
 
 # ---------------------------------------------------------------------------------------------------------------------
